@@ -1064,7 +1064,9 @@ pub fn gen_cfg(rng: &mut Rng, n: usize, prop: RProp) -> GenCfg {
         _ => rng.range(1, n.max(1)),
     };
     let (paths, swap_rate, tail_rate, restore_rate) = match prop {
-        RProp::C02 | RProp::C08 | RProp::C09 => (if rng.chance(0.3) { PathMix::All } else { PathMix::AddOnly }, 0., 0., 0.),
+        // tails = observations added to a merged estimator afterwards: the merged estimator must
+        // behave like one that has seen the concatenated data also for what comes later
+        RProp::C02 | RProp::C08 | RProp::C09 => (if rng.chance(0.3) { PathMix::All } else { PathMix::AddOnly }, 0., if rng.chance(0.3) { 0.3 } else { 0. }, 0.),
         RProp::C11Scalar | RProp::C11Pair => (if rng.chance(0.5) { PathMix::All } else { PathMix::AddOnly }, 0., if rng.chance(0.5) { 0.3 } else { 0. }, 0.),
         RProp::C14 => (PathMix::WithFromValue, if rng.chance(0.7) { 0.5 } else { 0. }, if rng.chance(0.5) { 0.3 } else { 0. }, 0.),
         RProp::C17Scalar | RProp::C17Pair => (if rng.chance(0.3) { PathMix::All } else { PathMix::AddOnly }, 0., if rng.chance(0.3) { 0.3 } else { 0. }, 0.),
@@ -1085,6 +1087,7 @@ pub fn gen_cfg(rng: &mut Rng, n: usize, prop: RProp) -> GenCfg {
         tail_rate,
         swap_rate,
         restore_rate,
+        reclone_rate: if rng.chance(0.2) { 0.2 } else { 0. },
     }
 }
 
@@ -1306,7 +1309,7 @@ pub fn r_edits(tr: &RTrace) -> Vec<REdit> {
     for &id in &reach {
         match &tr.tree.nodes[id] {
             Node::Leaf { pieces } => {
-                if pieces.len() != 1 || pieces[0].path != Path::AddLoop || pieces[0].restore {
+                if pieces.len() != 1 || pieces[0].path != Path::AddLoop || pieces[0].restore || pieces[0].reclone {
                     out.push(REdit::PlainLeaf(id));
                 }
                 for (k, p) in pieces.iter().enumerate() {
@@ -1323,7 +1326,7 @@ pub fn r_edits(tr: &RTrace) -> Vec<REdit> {
                     out.push(REdit::ClearJoinRestore(id));
                 }
                 for (k, p) in tail.iter().enumerate() {
-                    if p.restore || p.path != Path::AddLoop {
+                    if p.restore || p.reclone || p.path != Path::AddLoop {
                         out.push(REdit::PlainTail(id, k));
                     }
                 }
@@ -1359,7 +1362,7 @@ pub fn r_apply(tr: &RTrace, e: &REdit) -> Option<RTrace> {
             t = tr.clone();
             let layout = tr.tree.layout();
             let len = layout[*id].1 - layout[*id].0;
-            t.tree.nodes[*id] = Node::Leaf { pieces: vec![Piece { path: Path::AddLoop, len, restore: false }] };
+            t.tree.nodes[*id] = Node::Leaf { pieces: vec![Piece { path: Path::AddLoop, len, restore: false, reclone: false }] };
             t.tree = prune(&t.tree);
         }
         REdit::DropOrder => {
@@ -1372,7 +1375,7 @@ pub fn r_apply(tr: &RTrace, e: &REdit) -> Option<RTrace> {
                 Node::Leaf { pieces } => pieces.iter().map(|p| p.len).sum(),
                 _ => return None,
             };
-            t.tree.nodes[*id] = Node::Leaf { pieces: vec![Piece { path: Path::AddLoop, len, restore: false }] };
+            t.tree.nodes[*id] = Node::Leaf { pieces: vec![Piece { path: Path::AddLoop, len, restore: false, reclone: false }] };
         }
         REdit::ClearPieceRestore(id, k) => {
             t = tr.clone();
@@ -1396,6 +1399,7 @@ pub fn r_apply(tr: &RTrace, e: &REdit) -> Option<RTrace> {
             t = tr.clone();
             if let Node::Join { tail, .. } = &mut t.tree.nodes[*id] {
                 tail[*k].restore = false;
+                tail[*k].reclone = false;
                 tail[*k].path = Path::AddLoop;
             }
         }
